@@ -424,21 +424,21 @@ pub fn run(ctx: &Ctx) -> ! {
         "linear_clean_checkpoint",
         &format!("{dom}. Checkpoints are only taken at command boundaries (a Checkpoint op with writes pending first adds a command; counted in the labels) - the shape every runtime caller uses"),
         case,
-        ctx.pick(6_000, 150_000),
+        ctx.pick(12_000, 150_000),
         check_mem(true),
     );
     rep.explore(
         "linear_any_checkpoint",
         &format!("{dom}. Checkpoints anywhere, including while writes are pending"),
         case,
-        ctx.pick(3_000, 60_000),
+        ctx.pick(5_000, 60_000),
         check_mem(false),
     );
     rep.explore(
         "file_clean_checkpoint",
         "the clean-checkpoint part on LinearStorageProvider<FileManager> in a fresh temp dir",
         case,
-        ctx.pick(300, 6_000),
+        ctx.pick(500, 6_000),
         check_file(true),
     );
     crate::c13s::add_parts(&mut rep, ctx);
